@@ -12,17 +12,19 @@ def hmdStored (m : M) (d : IDl) (k i : Nat) (good : Bool) : M :=
   onSt m fun s => { s with idls := s.idls.map fun x =>
     if x.k = k then { d with pending := d.pending - 1, blocks := d.blocks.set i (some good) } else x }
 
-/-- The message is block `i` of the running download `d` of peer `k`, with the right length; it was the last
-block outstanding and the assembled buffer has the announced size and the right hash. -/
+/-- The message is block `i` of the running download `d` of peer `k`, with the right length, and the first
+answer for that block (a repeated one closes the peer, C17-F6); it was the last block outstanding and the
+assembled buffer has the announced size and the right hash. -/
 def HmdComplete (m : M) (d : IDl) (k i len : Nat) (good : Bool) : Prop :=
-  m.1.idls.find? (·.k = k) = some d ∧ i < d.nb ∧ len = blockSizeOf d.size i ∧ d.pending - 1 = 0 ∧
+  m.1.idls.find? (·.k = k) = some d ∧ i < d.nb ∧ len = blockSizeOf d.size i ∧
+    (d.blocks.getD i none).isSome = false ∧ d.pending - 1 = 0 ∧
     d.size = m.1.isize ∧ ∀ x ∈ d.blocks.set i (some good), x = some true
 
 /-- A message that completes a download with the right hash is handled by `hmdAdopt`. -/
 theorem handleMetadataData_complete (m : M) (d : IDl) (k i len : Nat) (good : Bool)
     (h : HmdComplete m d k i len good) :
     handleMetadataData m k i len good = hmdAdopt (hmdStored m d k i good) := by
-  obtain ⟨hd, hi, hlen, hpend, hsz, hall⟩ := h
+  obtain ⟨hd, hi, hlen, hfirst, hpend, hsz, hall⟩ := h
   rw [handleMetadataData_eq, hd]
   dsimp only
   unfold hmdBlock
@@ -30,7 +32,7 @@ theorem handleMetadataData_complete (m : M) (d : IDl) (k i len : Nat) (good : Bo
   have h3 : (decide (d.size = m.1.isize) && (d.blocks.set i (some good)).all (· = some true)) = true := by
     simp only [Bool.and_eq_true, decide_eq_true_eq, List.all_eq_true]
     exact ⟨hsz, hall⟩
-  simp only [h1, hlen, hpend, h3, ↓reduceIte, ne_eq, not_true_eq_false, Bool.not_true, Bool.false_eq_true]
+  simp only [h1, hlen, hfirst, hpend, h3, ↓reduceIte, ne_eq, not_true_eq_false, Bool.not_true, Bool.false_eq_true]
   rfl
 
 /-- Any other message leaves `info` alone. -/
@@ -50,15 +52,18 @@ theorem handleMetadataData_info_cases (m : M) (k i len : Nat) (good : Bool) :
       · next hlen =>
         split
         · left; simp
-        · next hpend =>
+        · next hfirst =>
           split
           · left; simp
-          · next hhash =>
-            right
-            refine ⟨d, hd, by omega, by simpa using hlen, by simpa using hpend, ?_⟩
-            simp only [Bool.not_eq_true', Bool.and_eq_false_iff, not_or, Bool.not_eq_false] at hhash
-            simp only [decide_eq_true_eq, List.all_eq_true] at hhash
-            exact ⟨hhash.1, fun x hx => by simpa using hhash.2 x hx⟩
+          · next hpend =>
+            split
+            · left; simp
+            · next hhash =>
+              right
+              refine ⟨d, hd, by omega, by simpa using hlen, by simpa using hfirst, by simpa using hpend, ?_⟩
+              simp only [Bool.not_eq_true', Bool.and_eq_false_iff, not_or, Bool.not_eq_false] at hhash
+              simp only [decide_eq_true_eq, List.all_eq_true] at hhash
+              exact ⟨hhash.1, fun x hx => by simpa using hhash.2 x hx⟩
 
 theorem hmdStart_keeps_info (m : M) : (hmdStart m).1.info = m.1.info := by
   unfold hmdStart
